@@ -353,9 +353,84 @@ func replyStream(first byte, udp bool) []byte {
 	return b
 }
 
+// genHandoffModel: the two-goroutine hand-off model's own line protocol (every schedule up to length 8 over r/w): the
+// harness side is the reference semantics of a Go channel of the given capacity written out here independently of the
+// Lean definitions (oracle: capacity 1 always delivers).
+func genHandoffModel(cap string) {
+	kept := cap == "1"
+	for n := 0; n <= 8; n++ {
+		for mask := 0; mask < 1<<uint(n); mask++ {
+			sch := make([]byte, n)
+			for i := range sch {
+				if mask>>uint(i)&1 == 1 {
+					sch[i] = 'r'
+				} else {
+					sch[i] = 'w'
+				}
+			}
+			full := string(sch) + "wwrrr"
+			// reference: buffer flag, token flag, reader pc (0 check, 1 checked, 2 parked, 3 returned), got, writer pc
+			buf, tok, rp, got, wp := false, false, 0, false, 0
+			take := func() { got, buf, rp = buf, false, 3 }
+			for _, c := range full {
+				if c == 'r' {
+					switch rp {
+					case 0:
+						if buf {
+							take()
+						} else {
+							rp = 1
+						}
+					case 1, 2:
+						if tok {
+							tok = false
+							take()
+						} else {
+							rp = 2
+						}
+					}
+				} else {
+					switch wp {
+					case 0:
+						buf, wp = true, 1
+					case 1:
+						if kept {
+							tok = true
+						} else if rp == 2 {
+							take()
+						}
+						wp = 2
+					}
+				}
+			}
+			res := "running"
+			switch {
+			case rp == 3 && got:
+				res = "delivered"
+			case rp == 3:
+				res = "returned-empty"
+			case rp == 2:
+				res = "blocked"
+			}
+			verdict := "ok"
+			if kept && res != "delivered" {
+				verdict = "viol:pushed-bytes-not-delivered:schedule " + string(sch)
+			}
+			line := "handoff " + cap + " " + string(sch)
+			if n == 0 {
+				line = "handoff " + cap + " -"
+			}
+			emit(line, res, verdict, true)
+		}
+	}
+}
+
 func genC16(tier string, seed uint64) {
 	r := NewRng(seed)
 	genC16Codec(tier, NewRng(seed+16))
+	genAgentWrite(tier, NewRng(seed+17))
+	genHandoffModel("1")
+	genHandoffModel("0")
 	type ap struct{ lip, lport, rip, rport string }
 	pairs := []ap{
 		{"0a000001", "22", "01020304", "40000"},
